@@ -1,9 +1,13 @@
 // Package srcfacts extracts, with go/parser from the CURRENT gorm source, the syntactic facts C18
 // relies on: every driver call site (ExecContext / QueryContext / QueryRowContext / PrepareContext /
 // BeginTx / StmtContext / Conn) with the form of its context argument, every Session{...} and
-// Statement{...} composite literal with the form of its Context field, and whether getInstance /
-// Statement.clone / Session copy the context.  Used by harness/facts (FactsOK_C18) and by the c18
-// harness (which embeds the literals of each derivation path, as they are in the source, in every case).
+// Statement{...} composite literal with the form of its Context field, every write to a Context
+// field, every manufactured context and every internal WithContext call.
+// Nothing is identified by file or function NAME: a context that is a parameter of an unexported
+// helper is resolved through the helper's callers (any depth up to maxDepth) to what the callers pass;
+// a parameter of an exported function is the caller's own context (API parameter); a literal is
+// identified by the set of fields it sets (its role); "only reachable from Open" is computed on the
+// call graph.  Used by harness/facts (FactsOK_C18) and by the c18 harness.
 package srcfacts
 
 import (
@@ -16,17 +20,19 @@ import (
 	"path/filepath"
 	"sort"
 	"strings"
+	"unicode"
 )
 
 // Forms of a context expression.
 const (
 	Absent     = "absent"     // field not set
-	StmtCtx    = "stmt_ctx"   // <x>.Statement.Context or stmt.Context: the context of the statement at hand
-	Param      = "param"      // a parameter of the enclosing function of type context.Context
-	CfgCtx     = "cfg_ctx"    // config.Context inside Session(): the context the caller put in the literal
+	StmtCtx    = "stmt_ctx"   // <x>.Statement.Context or <stmt>.Context: the context of the statement at hand
+	Param      = "param"      // a context.Context parameter of an EXPORTED function: the API caller's context
 	Background = "background" // context.Background() / context.TODO()
 	Unknown    = "unknown"
 )
+
+const maxDepth = 6
 
 type CallSite struct {
 	File   string `json:"file"`
@@ -34,7 +40,8 @@ type CallSite struct {
 	Line   int    `json:"line"`
 	Method string `json:"method"`
 	Recv   string `json:"recv"`
-	Form   string `json:"form"`
+	Form   string `json:"form"` // after resolution through helpers
+	Raw    string `json:"raw"`  // before
 	Text   string `json:"text"`
 }
 
@@ -42,13 +49,14 @@ type Lit struct {
 	Kind    string   `json:"kind"` // Session | Statement
 	File    string   `json:"file"`
 	Func    string   `json:"func"`
-	Ord     int      `json:"ord"` // ordinal of the literal of this kind inside Func
+	Ord     int      `json:"ord"`
 	Line    int      `json:"line"`
 	Fields  []string `json:"fields"`
 	CtxForm string   `json:"ctx_form"`
 	CtxText string   `json:"ctx_text"`
 	NewDB   string   `json:"new_db"` // "" | true | false | expr
 	Init    bool     `json:"initialized"`
+	Roots   []string `json:"roots"` // exported functions from which the enclosing function is reachable
 }
 
 // Own: the literal sets PrepareStmt or SkipHooks, so Session gives the derived handle its own Statement.
@@ -63,24 +71,37 @@ func (l Lit) Own() bool {
 
 func (l Lit) Key() string { return fmt.Sprintf("%s:%s#%d", l.File, l.Func, l.Ord) }
 
+// Role: the sorted set of fields the literal sets — what identifies it for the harness.
+func (l Lit) Role() string {
+	fs := append([]string{}, l.Fields...)
+	sort.Strings(fs)
+	return strings.Join(fs, ",")
+}
+
+func (l Lit) HasField(f string) bool {
+	for _, x := range l.Fields {
+		if x == f {
+			return true
+		}
+	}
+	return false
+}
+
 // FreshCtx is a place where the source manufactures a context instead of using the one at hand.
 type FreshCtx struct {
 	File  string `json:"file"`
 	Func  string `json:"func"`
 	Line  int    `json:"line"`
 	Call  string `json:"call"`  // context.Background | context.TODO | context.WithValue | ...
-	Usage string `json:"usage"` // logger (argument of a Logger.Info/Warn/Error/Trace call) | open_root (Open's root Statement) | other
+	Usage string `json:"usage"` // logger | open_root | other
 }
 
 type Facts struct {
-	Sites                []CallSite `json:"sites"`
-	Lits                 []Lit      `json:"literals"`
-	GetInstanceCopies    bool       `json:"getinstance_copies_ctx"`   // gorm.go getInstance: new Statement{Context: db.Statement.Context}
-	CloneCopies          bool       `json:"clone_copies_ctx"`         // statement.go clone: Context: stmt.Context
-	SessionAssignsCfg    bool       `json:"session_assigns_cfg_ctx"`  // gorm.go Session: tx.Statement.Context = config.Context under config.Context != nil
-	SessionOtherCtxWrite []string   `json:"session_other_ctx_writes"` // any other assignment to a .Context inside the scanned code
-	Fresh                []FreshCtx `json:"fresh_contexts"`           // every context.<X>(...) call of the scanned code
-	Rebinds              []string   `json:"internal_rebinds"`         // every <x>.WithContext(...) call of the scanned code (gorm never rebinds a handle itself)
+	Sites          []CallSite `json:"sites"`
+	Lits           []Lit      `json:"literals"`
+	OtherCtxWrites []string   `json:"other_ctx_writes"` // assignments to a .Context field whose right-hand side is neither a Session config's Context nor the statement's / API caller's context
+	Fresh          []FreshCtx `json:"fresh_contexts"`
+	Rebinds        []string   `json:"internal_rebinds"` // every <x>.WithContext(...) call of the scanned code
 }
 
 var methods = map[string]bool{"ExecContext": true, "QueryContext": true, "QueryRowContext": true,
@@ -92,51 +113,163 @@ func text(fset *token.FileSet, n ast.Node) string {
 	return sb.String()
 }
 
-func ctxParams(fd *ast.FuncDecl) map[string]bool {
-	out := map[string]bool{}
-	if fd == nil || fd.Type.Params == nil {
-		return out
+func isType(t ast.Expr, pkg, name string) bool {
+	if st, ok := t.(*ast.StarExpr); ok {
+		t = st.X
 	}
-	for _, f := range fd.Type.Params.List {
-		if se, ok := f.Type.(*ast.SelectorExpr); ok {
-			if x, ok := se.X.(*ast.Ident); ok && x.Name == "context" && se.Sel.Name == "Context" {
-				for _, n := range f.Names {
-					out[n.Name] = true
-				}
+	switch x := t.(type) {
+	case *ast.SelectorExpr:
+		id, ok := x.X.(*ast.Ident)
+		return ok && id.Name == pkg && x.Sel.Name == name
+	case *ast.Ident:
+		return pkg == "" && x.Name == name
+	}
+	return false
+}
+
+type fnInfo struct {
+	dir      string
+	short    string
+	display  string
+	exported bool
+	ctxIdx   map[string]int  // context.Context parameter name -> position
+	sessCfg  map[string]bool // *Session / *gorm.Session parameter names
+	stmtVar  map[string]bool // *Statement parameters and receiver
+}
+
+type callRec struct {
+	caller *fnInfo
+	args   []ast.Expr
+}
+
+type extractor struct {
+	fset  *token.FileSet
+	calls map[string]map[string][]callRec // dir -> callee short name -> calls
+	fns   map[string]map[string][]*fnInfo // dir -> short name -> declarations
+}
+
+func newFn(fset *token.FileSet, dir string, ft *ast.FuncType, recv *ast.FieldList, name string) *fnInfo {
+	fi := &fnInfo{dir: dir, short: name, display: name, ctxIdx: map[string]int{}, sessCfg: map[string]bool{}, stmtVar: map[string]bool{}}
+	fi.exported = name != "" && unicode.IsUpper([]rune(name)[0])
+	if recv != nil && len(recv.List) == 1 {
+		rt := text(fset, recv.List[0].Type)
+		fi.display = strings.TrimPrefix(rt, "*") + "." + name
+		if isType(recv.List[0].Type, "", "Statement") {
+			for _, n := range recv.List[0].Names {
+				fi.stmtVar[n.Name] = true
 			}
 		}
 	}
-	return out
+	if ft != nil && ft.Params != nil {
+		i := 0
+		for _, f := range ft.Params.List {
+			names := f.Names
+			if len(names) == 0 {
+				i++
+				continue
+			}
+			for _, n := range names {
+				if isType(f.Type, "context", "Context") {
+					fi.ctxIdx[n.Name] = i
+				}
+				if isType(f.Type, "", "Session") || isType(f.Type, "gorm", "Session") {
+					fi.sessCfg[n.Name] = true
+				}
+				if isType(f.Type, "", "Statement") || isType(f.Type, "gorm", "Statement") {
+					fi.stmtVar[n.Name] = true
+				}
+				i++
+			}
+		}
+	}
+	return fi
 }
 
-func form(e ast.Expr, params map[string]bool) string {
+// rawForm classifies e inside fn without following helpers; for Param it also returns the parameter index.
+func rawForm(e ast.Expr, fn *fnInfo) (string, int) {
 	switch x := e.(type) {
 	case *ast.SelectorExpr:
 		if x.Sel.Name == "Context" {
 			if in, ok := x.X.(*ast.SelectorExpr); ok && in.Sel.Name == "Statement" {
-				return StmtCtx
+				return StmtCtx, -1
 			}
-			if id, ok := x.X.(*ast.Ident); ok {
-				if id.Name == "stmt" {
-					return StmtCtx
-				}
-				if id.Name == "config" {
-					return CfgCtx
-				}
+			if id, ok := x.X.(*ast.Ident); ok && (fn.stmtVar[id.Name] || id.Name == "stmt") {
+				return StmtCtx, -1
 			}
 		}
 	case *ast.Ident:
-		if params[x.Name] {
-			return Param
+		if i, ok := fn.ctxIdx[x.Name]; ok {
+			return Param, i
 		}
 	case *ast.CallExpr:
 		if se, ok := x.Fun.(*ast.SelectorExpr); ok {
 			if id, ok := se.X.(*ast.Ident); ok && id.Name == "context" && (se.Sel.Name == "Background" || se.Sel.Name == "TODO") {
-				return Background
+				return Background, -1
 			}
 		}
 	}
-	return Unknown
+	return Unknown, -1
+}
+
+func worse(a, b string) string {
+	rank := map[string]int{Absent: 0, StmtCtx: 1, Param: 2, Background: 3, Unknown: 4}
+	if rank[b] > rank[a] {
+		return b
+	}
+	return a
+}
+
+// resolve follows a context parameter of an unexported function to what its callers pass.
+func (ex *extractor) resolve(e ast.Expr, fn *fnInfo, depth int) string {
+	f, idx := rawForm(e, fn)
+	if f != Param {
+		return f
+	}
+	if fn.exported || idx < 0 { // idx < 0: a parameter of a closure, whose caller is not followed
+		return Param
+	}
+	if depth >= maxDepth {
+		return Unknown
+	}
+	cs := ex.calls[fn.dir][fn.short]
+	if len(cs) == 0 {
+		return Unknown
+	}
+	res := Absent
+	for _, c := range cs {
+		if idx >= len(c.args) {
+			return Unknown
+		}
+		res = worse(res, ex.resolve(c.args[idx], c.caller, depth+1))
+	}
+	return res
+}
+
+// roots: the exported functions from which fn is reachable (through unexported callers).
+func (ex *extractor) roots(fn *fnInfo, depth int, seen map[*fnInfo]bool) []string {
+	if fn.exported {
+		return []string{fn.short}
+	}
+	if depth >= maxDepth || seen[fn] {
+		return nil
+	}
+	seen[fn] = true
+	set := map[string]bool{}
+	cs := ex.calls[fn.dir][fn.short]
+	if len(cs) == 0 {
+		set["<no caller>"] = true
+	}
+	for _, c := range cs {
+		for _, r := range ex.roots(c.caller, depth+1, seen) {
+			set[r] = true
+		}
+	}
+	out := []string{}
+	for r := range set {
+		out = append(out, r)
+	}
+	sort.Strings(out)
+	return out
 }
 
 func litKind(t ast.Expr) string {
@@ -153,160 +286,208 @@ func litKind(t ast.Expr) string {
 	return ""
 }
 
+type parsedFn struct {
+	fi   *fnInfo
+	body *ast.BlockStmt
+	rel  string
+}
+
 // Extract scans the non-test Go files of the root package, callbacks/ and migrator/.
 func Extract(repo string) (Facts, error) {
 	var fa Facts
-	fset := token.NewFileSet()
-	var files []string
+	ex := &extractor{fset: token.NewFileSet(), calls: map[string]map[string][]callRec{}, fns: map[string]map[string][]*fnInfo{}}
+	fset := ex.fset
+	var all []parsedFn
+	nfiles := 0
 	for _, dir := range []string{"", "callbacks", "migrator"} {
 		m, _ := filepath.Glob(filepath.Join(repo, dir, "*.go"))
 		sort.Strings(m)
-		for _, f := range m {
-			if !strings.HasSuffix(f, "_test.go") {
-				files = append(files, f)
-			}
-		}
-	}
-	if len(files) == 0 {
-		return fa, fmt.Errorf("no Go files under %s", repo)
-	}
-	for _, path := range files {
-		src, err := os.ReadFile(path)
-		if err != nil {
-			return fa, err
-		}
-		f, err := parser.ParseFile(fset, path, src, 0)
-		if err != nil {
-			return fa, err
-		}
-		rel, _ := filepath.Rel(repo, path)
-		for _, d := range f.Decls {
-			fd, ok := d.(*ast.FuncDecl)
-			if !ok || fd.Body == nil {
+		ex.calls[dir] = map[string][]callRec{}
+		ex.fns[dir] = map[string][]*fnInfo{}
+		for _, path := range m {
+			if strings.HasSuffix(path, "_test.go") {
 				continue
 			}
-			fname := fd.Name.Name
-			if fd.Recv != nil && len(fd.Recv.List) == 1 {
-				rt := text(fset, fd.Recv.List[0].Type)
-				fname = strings.TrimPrefix(rt, "*") + "." + fname
+			src, err := os.ReadFile(path)
+			if err != nil {
+				return fa, err
 			}
-			params := ctxParams(fd)
-			ord := map[string]int{}
-			usage := map[ast.Node]string{}
-			isCtxCall := func(e ast.Expr) (string, bool) {
-				c, ok := e.(*ast.CallExpr)
-				if !ok {
-					return "", false
-				}
-				se, ok := c.Fun.(*ast.SelectorExpr)
-				if !ok {
-					return "", false
-				}
-				if id, ok := se.X.(*ast.Ident); ok && id.Name == "context" {
-					return "context." + se.Sel.Name, true
-				}
-				return "", false
+			f, err := parser.ParseFile(fset, path, src, 0)
+			if err != nil {
+				return fa, err
 			}
-			ast.Inspect(fd.Body, func(n ast.Node) bool {
-				switch x := n.(type) {
-				case *ast.FuncLit:
-					// closures may have their own context parameters
-					for k := range ctxParams(&ast.FuncDecl{Type: x.Type}) {
-						params[k] = true
-					}
-				case *ast.CallExpr:
-					if name, ok := isCtxCall(x); ok {
-						u := usage[x]
-						if u == "" {
-							u = "other"
-						}
-						fa.Fresh = append(fa.Fresh, FreshCtx{File: rel, Func: fname, Line: fset.Position(x.Pos()).Line, Call: name, Usage: u})
-						return true
-					}
-					if se0, ok := x.Fun.(*ast.SelectorExpr); ok {
-						if se0.Sel.Name == "WithContext" {
-							fa.Rebinds = append(fa.Rebinds, fmt.Sprintf("%s:%s:%d: %s", rel, fname, fset.Position(x.Pos()).Line, text(fset, x)))
-						}
-						// the context handed to a logger call is not a driver context
-						switch se0.Sel.Name {
-						case "Info", "Warn", "Error", "Trace":
-							if strings.HasSuffix(text(fset, se0.X), "Logger") && len(x.Args) > 0 {
-								if _, ok := isCtxCall(x.Args[0]); ok {
-									usage[x.Args[0]] = "logger"
-								}
-							}
-						}
-					}
-					se, ok := x.Fun.(*ast.SelectorExpr)
-					if !ok || !methods[se.Sel.Name] || len(x.Args) == 0 {
-						return true
-					}
-					if se.Sel.Name == "Conn" && len(x.Args) != 1 {
-						return true
-					}
-					fa.Sites = append(fa.Sites, CallSite{File: rel, Func: fname, Line: fset.Position(x.Pos()).Line,
-						Method: se.Sel.Name, Recv: text(fset, se.X), Form: form(x.Args[0], params), Text: text(fset, x.Args[0])})
-				case *ast.CompositeLit:
-					k := litKind(x.Type)
-					if k == "" {
-						return true
-					}
-					l := Lit{Kind: k, File: rel, Func: fname, Ord: ord[k], Line: fset.Position(x.Pos()).Line, CtxForm: Absent, Fields: []string{}}
-					ord[k]++
-					for _, el := range x.Elts {
-						kv, ok := el.(*ast.KeyValueExpr)
-						if !ok {
-							l.Fields = append(l.Fields, "?positional")
-							l.CtxForm = Unknown
-							continue
-						}
-						key := text(fset, kv.Key)
-						l.Fields = append(l.Fields, key)
-						switch key {
-						case "Context":
-							l.CtxForm = form(kv.Value, params)
-							l.CtxText = text(fset, kv.Value)
-							if k == "Statement" && rel == "gorm.go" && fname == "Open" {
-								if _, ok := isCtxCall(kv.Value); ok {
-									usage[kv.Value] = "open_root"
-								}
-							}
-						case "NewDB":
-							v := text(fset, kv.Value)
-							if v != "true" && v != "false" {
-								v = "expr"
-							}
-							l.NewDB = v
-						case "Initialized":
-							l.Init = text(fset, kv.Value) == "true"
-						}
-					}
-					fa.Lits = append(fa.Lits, l)
-				case *ast.AssignStmt:
-					// writes to a Context field
-					for i, lhs := range x.Lhs {
-						se, ok := lhs.(*ast.SelectorExpr)
-						if !ok || se.Sel.Name != "Context" || i >= len(x.Rhs) {
-							continue
-						}
-						w := fmt.Sprintf("%s:%s: %s = %s", rel, fname, text(fset, lhs), text(fset, x.Rhs[i]))
-						if rel == "gorm.go" && fname == "DB.Session" && text(fset, lhs) == "tx.Statement.Context" && text(fset, x.Rhs[i]) == "config.Context" {
-							fa.SessionAssignsCfg = true
-						} else {
-							fa.SessionOtherCtxWrite = append(fa.SessionOtherCtxWrite, w)
-						}
-					}
+			nfiles++
+			rel, _ := filepath.Rel(repo, path)
+			for _, d := range f.Decls {
+				fd, ok := d.(*ast.FuncDecl)
+				if !ok || fd.Body == nil {
+					continue
 				}
-				return true
-			})
+				fi := newFn(fset, dir, fd.Type, fd.Recv, fd.Name.Name)
+				ex.fns[dir][fi.short] = append(ex.fns[dir][fi.short], fi)
+				all = append(all, parsedFn{fi, fd.Body, rel})
+			}
 		}
 	}
-	for _, l := range fa.Lits {
-		if l.Kind == "Statement" && l.File == "gorm.go" && l.Func == "DB.getInstance" && l.CtxForm == StmtCtx {
-			fa.GetInstanceCopies = true
+	if nfiles == 0 {
+		return fa, fmt.Errorf("no Go files under %s", repo)
+	}
+	// pass 1: the call graph (callee by name, inside the same package)
+	for _, pf := range all {
+		pf := pf
+		cur := pf.fi
+		ast.Inspect(pf.body, func(n ast.Node) bool {
+			switch x := n.(type) {
+			case *ast.CallExpr:
+				name := ""
+				switch f := x.Fun.(type) {
+				case *ast.Ident:
+					name = f.Name
+				case *ast.SelectorExpr:
+					name = f.Sel.Name
+				}
+				if name != "" {
+					if _, declared := ex.fns[cur.dir][name]; declared {
+						ex.calls[cur.dir][name] = append(ex.calls[cur.dir][name], callRec{cur, x.Args})
+					}
+				}
+			}
+			return true
+		})
+	}
+	// pass 2: the facts
+	for _, pf := range all {
+		pf := pf
+		fn := pf.fi
+		rel := pf.rel
+		ord := map[string]int{}
+		usage := map[ast.Node]string{}
+		isCtxCall := func(e ast.Expr) (string, bool) {
+			c, ok := e.(*ast.CallExpr)
+			if !ok {
+				return "", false
+			}
+			se, ok := c.Fun.(*ast.SelectorExpr)
+			if !ok {
+				return "", false
+			}
+			if id, ok := se.X.(*ast.Ident); ok && id.Name == "context" {
+				return "context." + se.Sel.Name, true
+			}
+			return "", false
 		}
-		if l.Kind == "Statement" && l.File == "statement.go" && l.Func == "Statement.clone" && l.CtxForm == StmtCtx {
-			fa.CloneCopies = true
+		ast.Inspect(pf.body, func(n ast.Node) bool {
+			switch x := n.(type) {
+			case *ast.FuncLit:
+				for k := range newFn(fset, fn.dir, x.Type, nil, fn.short).ctxIdx {
+					if _, ok := fn.ctxIdx[k]; !ok {
+						fn.ctxIdx[k] = -1
+					}
+				}
+			case *ast.CallExpr:
+				if name, ok := isCtxCall(x); ok {
+					u := usage[x]
+					if u == "" {
+						u = "other"
+					}
+					fa.Fresh = append(fa.Fresh, FreshCtx{File: rel, Func: fn.display, Line: fset.Position(x.Pos()).Line, Call: name, Usage: u})
+					return true
+				}
+				if se0, ok := x.Fun.(*ast.SelectorExpr); ok {
+					if se0.Sel.Name == "WithContext" {
+						fa.Rebinds = append(fa.Rebinds, fmt.Sprintf("%s:%s:%d: %s", rel, fn.display, fset.Position(x.Pos()).Line, text(fset, x)))
+					}
+					// the context handed to a logger call is not a driver context
+					switch se0.Sel.Name {
+					case "Info", "Warn", "Error", "Trace":
+						if strings.HasSuffix(text(fset, se0.X), "Logger") && len(x.Args) > 0 {
+							if _, ok := isCtxCall(x.Args[0]); ok {
+								usage[x.Args[0]] = "logger"
+							}
+						}
+					}
+				}
+				se, ok := x.Fun.(*ast.SelectorExpr)
+				if !ok || !methods[se.Sel.Name] || len(x.Args) == 0 {
+					return true
+				}
+				if se.Sel.Name == "Conn" && len(x.Args) != 1 {
+					return true
+				}
+				raw, _ := rawForm(x.Args[0], fn)
+				fa.Sites = append(fa.Sites, CallSite{File: rel, Func: fn.display, Line: fset.Position(x.Pos()).Line,
+					Method: se.Sel.Name, Recv: text(fset, se.X), Form: ex.resolve(x.Args[0], fn, 0), Raw: raw, Text: text(fset, x.Args[0])})
+			case *ast.CompositeLit:
+				k := litKind(x.Type)
+				if k == "" {
+					return true
+				}
+				l := Lit{Kind: k, File: rel, Func: fn.display, Ord: ord[k], Line: fset.Position(x.Pos()).Line, CtxForm: Absent, Fields: []string{}}
+				ord[k]++
+				for _, el := range x.Elts {
+					kv, ok := el.(*ast.KeyValueExpr)
+					if !ok {
+						l.Fields = append(l.Fields, "?positional")
+						l.CtxForm = Unknown
+						continue
+					}
+					key := text(fset, kv.Key)
+					l.Fields = append(l.Fields, key)
+					switch key {
+					case "Context":
+						l.CtxForm = ex.resolve(kv.Value, fn, 0)
+						l.CtxText = text(fset, kv.Value)
+						if k == "Statement" {
+							if _, ok := isCtxCall(kv.Value); ok {
+								usage[kv.Value] = "statement_root"
+							}
+						}
+					case "NewDB":
+						v := text(fset, kv.Value)
+						if v != "true" && v != "false" {
+							v = "expr"
+						}
+						l.NewDB = v
+					case "Initialized":
+						l.Init = text(fset, kv.Value) == "true"
+					}
+				}
+				l.Roots = ex.roots(fn, 0, map[*fnInfo]bool{})
+				fa.Lits = append(fa.Lits, l)
+			case *ast.AssignStmt:
+				for i, lhs := range x.Lhs {
+					se, ok := lhs.(*ast.SelectorExpr)
+					if !ok || se.Sel.Name != "Context" || i >= len(x.Rhs) {
+						continue
+					}
+					// allowed: <Session config parameter>.Context (Session applying its config), or the
+					// statement's / API caller's own context
+					okRHS := false
+					if rs, ok := x.Rhs[i].(*ast.SelectorExpr); ok && rs.Sel.Name == "Context" {
+						if id, ok := rs.X.(*ast.Ident); ok && fn.sessCfg[id.Name] {
+							okRHS = true
+						}
+					}
+					if f := ex.resolve(x.Rhs[i], fn, 0); f == StmtCtx || f == Param {
+						okRHS = true
+					}
+					if !okRHS {
+						fa.OtherCtxWrites = append(fa.OtherCtxWrites, fmt.Sprintf("%s:%s: %s = %s", rel, fn.display, text(fset, lhs), text(fset, x.Rhs[i])))
+					}
+				}
+			}
+			return true
+		})
+		// a manufactured context that seeds a Statement literal is the root statement iff only Open reaches it
+		for i := range fa.Fresh {
+			if fa.Fresh[i].Usage == "statement_root" && fa.Fresh[i].File == rel && fa.Fresh[i].Func == fn.display {
+				r := ex.roots(fn, 0, map[*fnInfo]bool{})
+				if len(r) == 1 && r[0] == "Open" {
+					fa.Fresh[i].Usage = "open_root"
+				} else {
+					fa.Fresh[i].Usage = "other"
+				}
+			}
 		}
 	}
 	if fa.Fresh == nil {
@@ -315,32 +496,45 @@ func Extract(repo string) (Facts, error) {
 	if fa.Rebinds == nil {
 		fa.Rebinds = []string{}
 	}
-	if fa.SessionOtherCtxWrite == nil {
-		fa.SessionOtherCtxWrite = []string{}
+	if fa.OtherCtxWrites == nil {
+		fa.OtherCtxWrites = []string{}
 	}
 	return fa, nil
 }
 
-// Find returns the literal with the given key.
-func (fa Facts) Find(key string) (Lit, bool) {
+// Role returns the literal the harness must assume for a Session literal of the given role (sorted,
+// comma-joined field names): among the source literals with exactly those fields, the one with the
+// worst context form.  ok = false when the source has no such literal.
+func (fa Facts) Role(role string) (Lit, bool) {
+	var best Lit
+	found := false
 	for _, l := range fa.Lits {
-		if l.Key() == key {
-			return l, true
+		if l.Kind != "Session" || l.Role() != role {
+			continue
 		}
+		if !found || worse(best.CtxForm, l.CtxForm) != best.CtxForm {
+			best = l
+		}
+		found = true
 	}
-	return Lit{}, false
+	return best, found
 }
 
-// Site returns the n-th call site of method in file:func.
-func (fa Facts) Site(file, fn, method string, n int) (CallSite, bool) {
-	k := 0
+// SiteForm returns the worst context form among the call sites of the given method that are
+// (wrapper = false) callback / finisher sites or (wrapper = true) sites passing on a context parameter
+// they received through an exported method (the prepared-statement wrappers).
+func (fa Facts) SiteForm(method string, wrapper bool) (string, bool) {
+	res, found := Absent, false
 	for _, s := range fa.Sites {
-		if s.File == file && s.Func == fn && s.Method == method {
-			if k == n {
-				return s, true
-			}
-			k++
+		if s.Method != method {
+			continue
 		}
+		isWrapper := s.Raw == Param
+		if isWrapper != wrapper {
+			continue
+		}
+		res = worse(res, s.Form)
+		found = true
 	}
-	return CallSite{}, false
+	return res, found
 }
